@@ -16,6 +16,10 @@ CLAIMS = {
     'C08': claim('Time add/sub of 6 units for all u32 counts, Time+-Time, Time+-Duration, constructors, From<DateTime>: result in [0, 24h), value = (t +- amount) mod 24h, offset kept.', '3/C08'),
     'C09': claim('10 setters and 9 clears on DateTime (all offsets, two-day margin at the range ends), Date and Time: the result is characterised completely in local time (edited local day / time of day, everything else equal), Err exactly for invalid values.', '3/C09'),
     'C10': claim('set_offset keeps the instant, getters read the shifted instant, as_offset keeps fields and moves the instant, Offset constructors/resolve_hms, Time variants, for all instants (one-day margin) x all offsets.', '3/C10'),
+    'C11': claim('REDUCED scope (stated): for every documented symbol and width (112 one-symbol patterns), format_date_part / format_time_part return the documented renderer applied to the documented value, '
+                 'for all days / all times of day x all offsets -- strings compared in a free term algebra over the leaf renderers (zero_padded, ordinal, table literals, format! templates); the documentation table is transcribed as a second implementation in props/. '
+                 'Decides value-dependent behaviour (12/0/24 o\'clock, noon/midnight, week, quarter, sub-second truncation, zone h/m/s split, sign). NOT decided: the tokenizer, concatenation, literals/quoting, the yy field, and that std prints digits correctly.', '3/C11',
+                 technique='MIR symbolic execution with String results as terms -> SMT vs a transcribed documentation table; native replay'),
     'C13': claim('READ side only: DateTime::parse_rfc3339 is executed from MIR on bounded symbolic strings (every byte symbolic) and compared with a reference reader written from the RFC 3339 ABNF: '
                  'one obligation per shape (0..=21 fraction digits quick / 0..=25 thorough, Z or numeric offset; all digits symbolic): grammatical and in range => exactly that instant, offset and truncated fraction; out-of-range field => Err. '
                  'The write side (format_rfc3339) builds Strings through the pattern formatter and is not decided.', '3/C13',
@@ -29,7 +33,6 @@ CLAIMS = {
     'C15': claim('from_ymdhms/from_hms/from_seconds/from_nanos/Offset constructors/set_*: Ok exactly for valid arguments with the oracle value; stated ranges exclude the rejected value and contain every accepted one (relational query), over the full parameter domains.', '3/C15'),
 }
 NOT_APPLICABLE = {
-    'C11': 'format(): every path builds Strings through parse_format_string (Vec<String> tokenizer) and format!; CBMC exhausts memory on the tokenizer even for concrete patterns and the MIR engine has no faithful model of that much of alloc::string/alloc::vec. The one-symbol term-algebra layer sketched in DESIGN.md was not built in this revision. The values the fields render (weekday, week, quarter, day of year, clock fields under offsets) are decided by C02/C08/C10.',
     'C12': 'parse(format(v, p), p): both directions run through the String/Vec<String> tokenizer and char-level consumers, out of reach of CBMC (memory) and of the MIR engine (no model of alloc::string at that scale); deciding it on concrete patterns and values would be enumeration, not solving.',
     'C16': 'the quantified object is the cron expression string; parse_cron_part is split/strip_prefix/to_lowercase/HashSet::extend code that neither engine can execute symbolically. The set semantics once a schedule exists are covered by C17 for all value sets.',
     'C18': 'TZif lookup: the footer text (POSIX TZ string) and the rule-based lookups run through from_utf8/trim_matches/Cursor closures and Vec-returning calendar helpers; Kani does not finish on them, and even the table-only Kani harnesses built here (props/append_local-timezone__verif_tz.rs) did not finish their successful-path proofs within 5 minutes per harness, so nothing is claimed. Two genuine defects found on the way were repaired (known_findings.json).',
